@@ -121,6 +121,27 @@ fn build(calls: &[Call]) -> Hyphenator {
     h
 }
 
+/// The same build with every word asked for after every call: asking is a pure function of what was loaded, so the
+/// answers at the end must not depend on having asked before (anything remembered between calls shows here).
+fn build_asking<L: LowerCaser>(calls: &[Call], lc: &L, words: &[String]) -> Hyphenator {
+    let mut h = Hyphenator::default();
+    for w in words {
+        let _ = h.calculate_indices(lc, w).count();
+    }
+    for c in calls {
+        match c.k {
+            "p" => h.load_patterns(&c.t),
+            "e" => h.insert_exception(&c.t),
+            "E" => h.insert_exceptions(&c.t),
+            _ => unreachable!(),
+        }
+        for w in words {
+            let _ = h.calculate_indices(lc, w).count();
+        }
+    }
+    h
+}
+
 fn query<L: LowerCaser>(h: &Hyphenator, lc: &L, w: &str) -> Value {
     match catch(|| h.calculate_indices(lc, w).collect::<Vec<usize>>()) {
         Ok(got) => json!({"w": cps(w), "got": got}),
@@ -143,7 +164,9 @@ fn event<L: LowerCaser>(calls: &[Call], lc: &L, words: &[String], profile: &str)
     let mut texts: Vec<&str> = calls.iter().map(|c| c.t.as_str()).collect();
     texts.extend(words.iter().map(|w| w.as_str()));
     let lcp = lc_pairs(lc, &texts);
-    match catch(|| build(calls)) {
+    // every other event asks on the way (the digest of the calls decides, so a replay does the same)
+    let asking = calls.iter().map(|c| c.t.len()).sum::<usize>() % 2 == 1;
+    match catch(|| if asking { build_asking(calls, lc, words) } else { build(calls) }) {
         Err((site, msg)) => {
             json!({"ops": ops, "lc": lcp, "profile": profile, "words": [], "panic": format!("{site}: {msg}")})
         }
